@@ -71,6 +71,14 @@ class TlcResult:
         return zero
 
 
+_ADDR = re.compile(r" at 0x[0-9a-fA-F]+")
+
+
+def stable(text) -> str:
+    """An error text without the parts that differ between two runs of the same program (object addresses)."""
+    return _ADDR.sub("", str(text))
+
+
 class Ctx:
     def __init__(self, pid: str, tier: str, seed: int, design_ref: str = ""):
         self.pid = pid
